@@ -13,6 +13,18 @@ META = {
     'C01': dict(cat='exploration', technique='property-based testing: eval round-trip with type-strict canonical equality (bounded-exhaustive small trees + Hypothesis)',
                 text='Every generated value/config is printed, evaluated by CPython and compared type-strictly (incl. -0.0, nan, bool/int, dict order). All trees <= 3 nodes (quick) / 4 nodes (thorough) over an adversarial leaf alphabet are enumerated; larger ones are random. Held on everything explored; no proof of absence.',
                 note='Trusts CPython eval as evaluator; ascending order is demanded only for keys that are pairwise orderable.', ref='3/C01'),
+    'C02': dict(cat='exploration', technique='property-based testing: tokenize/literal_eval round-trip of every literal piece (bounded-exhaustive alphabet words x placements x all widths + Hypothesis long strings), step budget for termination',
+                text='Every str/bytes over the 8-symbol adversarial alphabet up to length 3/4, in 8 placements, at every width from 1 up, plus embedded and long random strings: the STRING tokens of the output concatenate to the original, none empty, b prefix on every piece, output evaluates to the placement value; termination judged by a package-line budget.',
+                note='Trusts CPython tokenize/ast.literal_eval; the step budget is applied to literals longer than the 10-column floor at small widths and to a hash-selected sample elsewhere.', ref='3/C02'),
+    'C04': dict(cat='exploration', technique='property-based testing against a reference denotational semantics: memoised back-tracking membership matcher on the SDoc stream (bounded-exhaustive terms + Hypothesis)',
+                text='All document terms up to 4 (quick) / 5 (thorough) nodes x 42 (width, ribbon fraction, strategy) configurations and random larger terms: the emitted stream must be a layout the term denotes under some flat/broken assignment; annotations nested; renderer only trims trailing spaces.',
+                note='The reference semantics (ppv/refsem.py) is the trusted meaning of a document; known finding KF1 (hardline reached inside a flat group) is tolerated under its exact structural clause only.', ref='3/C04'),
+    'C05': dict(cat='exploration', technique='property-based testing: group decisions recovered by replaying the term against the stream, invariant over recovered decisions (existential over ambiguous assignments)',
+                text='All classic-algebra terms up to 5/6 nodes x 48 configurations and random larger ones: every observable flat group leaves its output line within min(width, indent+ribbon).',
+                note='Only groups with their own line/softline are observable; groups whose flat reading reaches a hardline (KF1) are not judged.', ref='3/C05'),
+    'C06': dict(cat='exploration', technique='property-based testing: independent reference look-ahead justifies every broken group (documents); metamorphic one-line test over widths >= L (values)',
+                text='Same document space as C05: every observable broken group must be justified by a reference look-ahead written from the statement. Values (built-ins, subclasses, call types, stdlib instances) whose unbounded rendering is one line of L columns print as that line at widths L, L+1, L+2, L+7, 2L+3.',
+                note='Reference look-ahead reads the forced-break clause broadly (never stricter than the statement).', ref='3/C06'),
 }
 
 ALL_IDS = ['C%02d' % i for i in range(1, 21)]
